@@ -8,6 +8,7 @@ import (
 	"context"
 	"fmt"
 	"os"
+	"strings"
 	"sync"
 	"syscall"
 	"time"
@@ -197,6 +198,16 @@ func c11One(probe, root string, c c11Case) c11Obs {
 	if c.Frozen && sess != nil {
 		// stop the container init: whatever is called now stays in flight until Destroy
 		syscall.Kill(sess.initPid, syscall.SIGSTOP)
+		// the group stop is asynchronous: wait until every thread of init has stopped
+		dl := time.Now().Add(5 * time.Second)
+		for !allThreadsStopped(sess.initPid) && time.Now().Before(dl) {
+			time.Sleep(time.Millisecond)
+		}
+		if !allThreadsStopped(sess.initPid) {
+			o.Setup = "container init did not stop"
+			sess.close()
+			return o
+		}
 	}
 	// the action at the chosen instant
 	if c.At >= 0 {
@@ -242,6 +253,25 @@ func c11One(probe, root string, c c11Case) c11Obs {
 		o.Setup = ""
 	}
 	return o
+}
+
+func allThreadsStopped(pid int) bool {
+	tasks, err := os.ReadDir(fmt.Sprintf("/proc/%d/task", pid))
+	if err != nil || len(tasks) == 0 {
+		return false
+	}
+	for _, t := range tasks {
+		b, err := os.ReadFile(fmt.Sprintf("/proc/%d/task/%s/stat", pid, t.Name()))
+		if err != nil {
+			return false
+		}
+		s := string(b)
+		i := strings.LastIndex(s, ") ")
+		if i < 0 || i+2 >= len(s) || (s[i+2] != 'T' && s[i+2] != 't') {
+			return false
+		}
+	}
+	return true
 }
 
 func dirOf(p string) string {
